@@ -87,6 +87,11 @@ def make_loop(shape, path, via_apply=False):
              "(define r1 (mk 1))", "(define r2 (mk 2))", "(define r3 (mk 4))",
              "((cadr r1) (car r2))", "((cadr r2) (car r3))", "((cadr r3) (car r1))"]
         return d, "((car r1) {N} 0)"
+    if shape == "drain":
+        # the iteration is driven by an effectful test in a cond => clause that is not the last one: one item is taken per round
+        d = ["(define q 0)", "(define (take!) (if (> q 0) (begin (set! q (- q 1)) (+ q 1)) #f))",
+             "(define (lp acc) (cond ((take!) => (lambda (n) (if (= (probe n) -1) 'never %s))) ((= q -5) 'never) (else acc)))" % W(call("lp", "(+ acc 1)"))]
+        return d, "(begin (set! q {N}) (lp 0))"
     raise ValueError(shape)
 
 
@@ -99,7 +104,7 @@ def expected(shape, N):
     return N
 
 
-SHAPES = ["self", "mutual2", "mutual3", "higher-order", "variadic", "closure-returned", "internal-var", "internal-proc", "closure-pair", "closure-ring"]
+SHAPES = ["self", "mutual2", "mutual3", "higher-order", "variadic", "closure-returned", "internal-var", "internal-proc", "closure-pair", "closure-ring", "drain"]
 
 
 def judge(ctx, case, rec, leg):
@@ -146,7 +151,7 @@ def judge(ctx, case, rec, leg):
     if k != "ok" or v != {"i": expected(shape, N)}:
         ctx.violation(dict(base, kind="result", what="loop result differs from the closed form", observed=v, expected=expected(shape, N), dedupe=key), {"case": case, "observed": last})
         return
-    if not pr or pr["n"] != N + 1:
+    if not pr or pr["n"] != (N if shape == "drain" else N + 1):
         ctx.violation(dict(base, kind="samples", what="probe was not called once per iteration", got=(pr or {}).get("n"), expected=N + 1), {"case": case})
         return
     # heap: flat over the second half (slope <= 1 byte / iteration)
